@@ -210,7 +210,8 @@ class YieldInjector:
     signature."""
     TOOL = 4
 
-    def __init__(self, seed, prob=0.05, only_functions=None):
+    def __init__(self, seed, prob=0.05, only_functions=None, files=None):
+        self.files = files     # basenames (without .py) in which to inject; others are DISABLEd after first hit
         self.rnd = _random.Random(seed)
         self.prob = prob
         self.prefix = _repo_prefix()
@@ -234,6 +235,8 @@ class YieldInjector:
         def cb(code, line):
             if not code.co_filename.startswith(prefix):
                 return mon.DISABLE
+            if self.files is not None and os.path.basename(code.co_filename)[:-3] not in self.files:
+                return mon.DISABLE
             if self.only is not None and code.co_name not in self.only:
                 return None
             me = threading.get_ident()
@@ -255,6 +258,7 @@ class YieldInjector:
             return None
         mon.register_callback(self.TOOL, E.LINE, cb)
         mon.set_events(self.TOOL, E.LINE)
+        mon.restart_events()
         self.on = True
         return self
 
